@@ -1,0 +1,162 @@
+//! Verification hooks. This module only exists when the `verif-hooks` cargo feature is enabled; it is
+//! not part of the supported API. It lets a test harness (1) substitute the byte transport that a
+//! request would otherwise obtain by dialling a TCP connection, (2) override name resolution,
+//! (3) observe labelled schedule points of the timeout machinery and (4) read back settings that
+//! have no wire-visible effect.
+
+use std::cell::RefCell;
+use std::fmt::Debug;
+use std::io::{self, Read, Write};
+use std::net::SocketAddr;
+use std::sync::{Arc, RwLock};
+use std::time::Duration;
+
+use crate::request::BaseSettings;
+
+/// A byte transport that can stand in for a TCP connection.
+pub trait Transport: Read + Write + Send + Debug {}
+
+impl<T: Read + Write + Send + Debug> Transport for T {}
+
+/// What the library was about to dial when the transport factory was consulted.
+#[derive(Debug, Clone)]
+pub struct Dial {
+    /// Host of the peer being connected to (the proxy's when a proxy is used), as the `url` crate displays it.
+    pub host: String,
+    /// Port of the peer being connected to.
+    pub port: u16,
+    /// Scheme of the URL being connected to (`http` or `https`); `https` means TLS to that peer was skipped.
+    pub scheme: String,
+    /// The URL of the request.
+    pub url: String,
+    /// The proxy URL selected for the request, if any.
+    pub proxy: Option<String>,
+    /// Whether an overall deadline is attached to the request.
+    pub has_deadline: bool,
+}
+
+/// Factory producing the transport for a dial, or the error the dial should fail with.
+pub type TransportFactory = Box<dyn FnMut(&Dial) -> io::Result<Box<dyn Transport>>>;
+
+/// Resolver override: returns the socket addresses for a domain name and port, or `None` to resolve normally.
+pub type Resolver = Box<dyn Fn(&str, u16) -> Option<Vec<SocketAddr>>>;
+
+/// Handler invoked at labelled schedule points.
+pub type SchedHandler = Arc<dyn Fn(&'static str) + Send + Sync>;
+
+thread_local! {
+    static FACTORY: RefCell<Option<TransportFactory>> = const { RefCell::new(None) };
+    static RESOLVER: RefCell<Option<Resolver>> = const { RefCell::new(None) };
+}
+
+static SCHED: RwLock<Option<SchedHandler>> = RwLock::new(None);
+
+/// Install (or remove) the transport factory of the calling thread.
+pub fn set_transport_factory(factory: Option<TransportFactory>) {
+    FACTORY.with(|f| *f.borrow_mut() = factory);
+}
+
+/// Install (or remove) the resolver override of the calling thread.
+pub fn set_resolver(resolver: Option<Resolver>) {
+    RESOLVER.with(|r| *r.borrow_mut() = resolver);
+}
+
+/// Install (or remove) the process-wide schedule point handler.
+pub fn set_sched_handler(handler: Option<SchedHandler>) {
+    *SCHED.write().unwrap() = handler;
+}
+
+pub(crate) fn has_factory() -> bool {
+    FACTORY.with(|f| f.borrow().is_some())
+}
+
+pub(crate) fn dial(dial: Dial) -> io::Result<Box<dyn Transport>> {
+    let factory = FACTORY.with(|f| f.borrow_mut().take());
+    match factory {
+        Some(mut factory) => {
+            let res = factory(&dial);
+            FACTORY.with(|f| {
+                let mut slot = f.borrow_mut();
+                if slot.is_none() {
+                    *slot = Some(factory);
+                }
+            });
+            res
+        }
+        None => Err(io::Error::new(io::ErrorKind::Other, "no transport factory installed")),
+    }
+}
+
+pub(crate) fn resolve(domain: &str, port: u16) -> Option<Vec<SocketAddr>> {
+    RESOLVER.with(|r| r.borrow().as_ref().and_then(|r| r(domain, port)))
+}
+
+/// A labelled schedule point; a no-op unless a handler is installed.
+#[inline]
+pub fn sched_point(label: &'static str) {
+    let handler = SCHED.read().unwrap().clone();
+    if let Some(handler) = handler {
+        handler(label);
+    }
+}
+
+/// Values of the settings carried by a session, request builder or prepared request.
+#[derive(Debug, Clone, PartialEq, Eq)]
+pub struct SettingsSnapshot {
+    /// Header fields held in the settings themselves (session headers), lower-case name and value bytes, in map order.
+    pub headers: Vec<(String, Vec<u8>)>,
+    /// Number of added root certificates.
+    pub root_certificates: usize,
+    /// `max_headers`
+    pub max_headers: usize,
+    /// `max_redirections`
+    pub max_redirections: u32,
+    /// `follow_redirects`
+    pub follow_redirects: bool,
+    /// `connect_timeout`
+    pub connect_timeout: Duration,
+    /// `read_timeout`
+    pub read_timeout: Duration,
+    /// `timeout`
+    pub timeout: Option<Duration>,
+    /// `Debug` rendering of the proxy settings.
+    pub proxy_settings: String,
+    /// `accept_invalid_certs`
+    pub accept_invalid_certs: bool,
+    /// `accept_invalid_hostnames`
+    pub accept_invalid_hostnames: bool,
+    /// Name of the default charset, if the `charsets` feature is on and one is set.
+    pub default_charset: Option<String>,
+    /// `allow_compression` (always `false` without a compression feature).
+    pub allow_compression: bool,
+}
+
+impl SettingsSnapshot {
+    pub(crate) fn of(settings: &BaseSettings) -> SettingsSnapshot {
+        SettingsSnapshot {
+            headers: settings
+                .headers
+                .iter()
+                .map(|(k, v)| (k.as_str().to_owned(), v.as_bytes().to_vec()))
+                .collect(),
+            root_certificates: settings.root_certificates.0.len(),
+            max_headers: settings.max_headers,
+            max_redirections: settings.max_redirections,
+            follow_redirects: settings.follow_redirects,
+            connect_timeout: settings.connect_timeout,
+            read_timeout: settings.read_timeout,
+            timeout: settings.timeout,
+            proxy_settings: format!("{:?}", settings.proxy_settings),
+            accept_invalid_certs: settings.accept_invalid_certs,
+            accept_invalid_hostnames: settings.accept_invalid_hostnames,
+            #[cfg(feature = "charsets")]
+            default_charset: settings.default_charset.map(|c| c.name().to_owned()),
+            #[cfg(not(feature = "charsets"))]
+            default_charset: None,
+            #[cfg(feature = "flate2")]
+            allow_compression: settings.allow_compression,
+            #[cfg(not(feature = "flate2"))]
+            allow_compression: false,
+        }
+    }
+}
